@@ -263,11 +263,37 @@ def run(ctx):
             return facts_cache[f.qual].get(id(node))
 
         justified_sites = set()
+        from ..region import Facts, Region
+
+        ctx_facts = Facts(index, graph)
+        regions = {}
+        present = set()
+
+        def justification(e):
+            """the table entry for this sink: its own function's, or — when the sink was extracted into a private helper
+            that only the justified function calls — that function's guard entry"""
+            fq_ = e.func.qual if e.func is not None else None
+            j = JUSTIFIED.get((fq_, e.callee))
+            if j is not None:
+                present.add((fq_, e.callee))
+                return j, e.func
+            if e.func is None:
+                return None, None
+            for (gq, cal), j in JUSTIFIED.items():
+                if cal != e.callee or not j.startswith("guard:") or gq not in index.funcs:
+                    continue
+                if gq not in regions:
+                    regions[gq] = Region(index, graph, index.funcs[gq])
+                if e.func in regions[gq].funcs[1:]:
+                    present.add((gq, cal))
+                    return j, index.funcs[gq]
+            return None, None
+
         for e in exec_sites:
             where = e.where()
             arg = e.call.args[0] if e.call.args else None
             fq = e.func.qual if e.func is not None else None
-            just = JUSTIFIED.get((fq, e.callee))
+            just, owner = justification(e)
             ok, msg = False, ""
             if e.sub == "import" and arg is not None and closed_constant(arg):
                 ok = True
@@ -301,13 +327,19 @@ def run(ctx):
             elif just.startswith("guard:"):
                 kind = just
                 g = just.split(":")[1]
-                facts = facts_at(e.func, e.call) or {}
+                facts = ctx_facts.at(e.func, e.call) or {}
                 ok = facts.get(g) is True
                 if not ok:
                     msg = "{} is no longer dominated by the explicit opt-in `{}`".format(e.callee, g)
                 if ok and g == "prepend":
                     # the compiled text is built from Import/ImportFrom nodes of the prepend string only
-                    roots = param_roots(e.func, e.call)
+                    if e.func is owner:
+                        roots = param_roots(e.func, e.call)
+                    else:
+                        roots = set()
+                        for caller_, call_ in regions[owner.qual].callsites.get(e.func.qual, ()):
+                            for a_ in list(call_.args) + [k_.value for k_ in call_.keywords]:
+                                roots |= param_roots(caller_, a_)
                     ok = "prepend" in roots and not (roots & {"input_mapping", "output_filename"})
                     if not ok:
                         msg = "eval in gen depends on {} rather than on --prepend only".format(sorted(roots))
@@ -330,7 +362,6 @@ def run(ctx):
                 justified_sites.add(id(e.call))
             ctx.ob("C17.exec", where, e.call, ok, msg or kind)
         # table entries must still exist
-        present = {(e.func.qual if e.func else None, e.callee) for e in exec_sites}
         for key in JUSTIFIED:
             ctx.need(key in present, "justified sink vanished (table out of date): {}".format(key))
 
@@ -388,7 +419,7 @@ def run(ctx):
                         ctx.ob(
                             "C17.exec",
                             f,
-                            call,
+                            "a module name taken from the analysed source is handed to {}".format(helper.rpartition(".")[2]),
                             False,
                             "a module name taken from the analysed source reaches {} -> find_spec, which "
                             "imports the parent package(s) of a dotted name ({}); reachable from {}".format(
@@ -413,6 +444,9 @@ def run(ctx):
             "cdd.compound.doctrans.doctrans",
             "cdd.shared.conformance.ground_truth",
         ]
+        from ..region import Region
+
+        sp_region = Region(index, graph, index.func("cdd.compound.sync_properties.sync_property"))
         for q in pure_entries + ["cdd.compound.sync_properties.sync_properties"]:
             r = graph.reachable([q])
             bad = []
@@ -425,8 +459,8 @@ def run(ctx):
                     continue
                 if key in allowed_for_pure:
                     continue
-                if q.endswith("sync_properties") and key[0].endswith("sync_property"):
-                    continue
+                if q.endswith("sync_properties") and e.func in sp_region.funcs:
+                    continue  # the opt-in --input-eval sink (checked for its guard in C17.exec), possibly in a private helper
                 bad.append(e)
             ok = not bad
             f = index.funcs[q]
